@@ -172,12 +172,16 @@ def datasets(draw, max_parents=6, max_children=4, max_grand=3):
     code = st.integers(0, _NV * _XV * _NV - 1)
     flags = draw(st.integers(0, 80))
     tot_c, tot_g, tot_t, no_orphans = (flags % 3 == 2), (flags // 3 % 3 == 2), (flags // 9 % 3 == 2), (flags // 27 % 3 == 2)
-    np_ = draw(st.integers(1 if tot_c else 0, max_parents))
+    # sizes are drawn with sampled_from in "interesting first" order (Hypothesis favours early elements / small integers)
+    def size(lo, hi, pref):
+        return st.sampled_from([v for v in pref if lo <= v <= hi] or [lo])
+
+    np_ = draw(size(1 if tot_c else 0, max_parents, [3, 2, 4, 1, 5, 6, 0]))
     parents, children, grand = [], [], []
     for i in range(np_):
         name, x, note = _vals(draw(code), 2)
         parents.append([i + 1, name, x, note])
-    counts = draw(st.lists(st.integers(1 if tot_c else 0, max_children), min_size=np_, max_size=np_))
+    counts = draw(st.lists(size(1 if tot_c else 0, max_children, [2, 1, 0, 3, 4]), min_size=np_, max_size=np_))
     for p, k in zip(parents, counts):
         for _ in range(k):
             name, x, note = _vals(draw(code), 2)
@@ -186,7 +190,7 @@ def datasets(draw, max_parents=6, max_children=4, max_grand=3):
         for _ in range(draw(st.sampled_from([0, 1, 1, 2]))):  # orphans: NULL FK
             name, x, note = _vals(draw(code), 2)
             children.append([len(children) + 1, None, name, x, note])
-    counts = draw(st.lists(st.integers(1 if tot_g else 0, max_grand), min_size=len(children), max_size=len(children)))
+    counts = draw(st.lists(size(1 if tot_g else 0, max_grand, [1, 2, 0, 3]), min_size=len(children), max_size=len(children)))
     for c, k in zip(children, counts):
         for _ in range(k):
             name, x = _vals(draw(code), 1)
@@ -195,7 +199,7 @@ def datasets(draw, max_parents=6, max_children=4, max_grand=3):
         for _ in range(draw(st.sampled_from([0, 1, 1, 2]))):
             name, x = _vals(draw(code), 1)
             grand.append([len(grand) + 1, None, name, x])
-    nt = draw(st.integers(1 if tot_t else 0, 4))
+    nt = draw(size(1 if tot_t else 0, 4, [2, 3, 1, 4, 0]))
     tags = [[i + 1, NAMES[draw(st.integers(0, _NV - 1))]] for i in range(nt)]
     pt = []
     if parents and tags:
@@ -206,7 +210,7 @@ def datasets(draw, max_parents=6, max_children=4, max_grand=3):
             for j in range(nt):
                 if mask >> j & 1:
                     pt.append([p[0], tags[j][0]])
-    nn = draw(st.integers(0, 7))
+    nn = draw(st.sampled_from([4, 3, 5, 2, 6, 7, 1, 0]))
     forest = draw(st.integers(0, 2)) != 2
     nodes = []
     for i in range(nn):
